@@ -235,6 +235,12 @@ func ruleGlobalIn(c *Ctx, pkgRel string) *RuleResult {
 		// stores of global-rooted memory into caller memory
 		for _, e := range E.sums[fn].Stores {
 			if e.src.Root >= rGlobal && e.src.Root < rFresh && !(e.dst.Root >= rGlobal && e.dst.Root < rFresh) {
+				// a sentinel error of another package (io.ErrShortWrite recorded by an error-keeping
+				// writer) is an immutable value shared by every program that imports the package
+				if g := E.globals[e.src.Root-rGlobal]; g.Pkg != nil && !strings.HasPrefix(g.Pkg.Pkg.Path(), c.Mod) && types.Identical(g.Type().(*types.Pointer).Elem(), errType) {
+					r.note("%s records the sentinel error %s.%s", c.short(fn), g.Pkg.Pkg.Name(), g.Name())
+					continue
+				}
 				bad++
 				r.find(c.short(fn)+":leaks "+E.apString(fn, e.src), c.pos(fn.Pos()), "%s stores memory of package-level %s into %s", c.short(fn), E.apString(fn, e.src), E.apString(fn, e.dst))
 			}
